@@ -16,12 +16,12 @@ from rv import sets as S
 from rv import common as C
 from rv.props import c01
 
-N_CASES = {'quick': 480, 'thorough': 12000}
+N_CASES = {'quick': 1200, 'thorough': 12000}
 TIMEOUT = {'quick': 1500, 'thorough': 6 * 3600}
 ANCHORS = ['lp:RoConstr.le_to_rc', 'lp:RoConstr.forall', 'ro:Model.do_math',
            'lp:DecRule.to_affine', 'lp:DecRule.adapt', 'lp:Model.do_math',
            'socp:Model.do_math', 'gcp:Model.do_math']
-FLOORS = {'judged': {'quick': 250, 'thorough': 6000}, 'nontrivial': 50}
+FLOORS = {'judged': {'quick': 625, 'thorough': 6000}, 'nontrivial': 50}
 RULE = ('ro models as in C01 (feasible and bounded by construction, sets non-empty, bounded, '
         'with an interior point); reference optimum by cutting planes. Non-trivial: reference '
         'solved, robust optimum differs from the nominal optimum by > 1e-4 (protection costs '
